@@ -1,1 +1,92 @@
+// Kani harnesses for C04 (k-NN estimators: neighbour weights), child module of src/neighbors/mod.rs.
+// KNNWeightFunction::calc_weights uses iterator closures (any / map / collect) and is not a Verus unit.
+//   Uniform:  one weight per neighbour, every weight is 1 (whatever the distances, NaN included: nothing is computed).
+//   Distance: if some neighbour is an exact match (distance 0) the exact matches weigh 1 and all others 0 ("an exact-match
+//             neighbour takes all the weight"); otherwise the weight is 1 / distance (a closer neighbour weighs more).
+// Distances are drawn from {0.0, 1.0, 2.0, 3.0} (the value set of the harness metric of c04_linear_knn.rs); the only
+// arithmetic is 1 / d on such a value, and the expected quotient is written as a constant.
 use super::*;
+
+fn pick_d() -> (u8, f64) {
+    let s: u8 = kani::any();
+    kani::assume(s < 4);
+    (
+        s,
+        match s {
+            0 => 0.0,
+            1 => 1.0,
+            2 => 2.0,
+            _ => 3.0,
+        },
+    )
+}
+
+macro_rules! h_weights_uniform {
+    ($name:ident, $n:expr, $unw:expr) => {
+        #[kani::proof]
+        #[kani::unwind($unw)]
+        fn $name() {
+            const N: usize = $n;
+            let d: [f64; N] = kani::any();
+            let mut dv: Vec<f64> = Vec::with_capacity(N);
+            for i in 0..N {
+                dv.push(d[i]);
+            }
+            let w = KNNWeightFunction::Uniform.calc_weights(dv);
+            assert!(w.len() == N, "calc_weights (uniform): one weight per neighbour");
+            for i in 0..N {
+                assert!(w[i] == 1.0, "calc_weights (uniform): every neighbour weighs 1");
+            }
+            kani::cover!(w.len() == N);
+        }
+    };
+}
+h_weights_uniform!(c04_weights_uniform_1, 1, 8);
+h_weights_uniform!(c04_weights_uniform_3, 3, 8);
+
+macro_rules! h_weights_distance {
+    ($name:ident, $n:expr, $unw:expr) => {
+        #[kani::proof]
+        #[kani::unwind($unw)]
+        fn $name() {
+            const N: usize = $n;
+            let mut sel = [0u8; N];
+            let mut dv: Vec<f64> = Vec::with_capacity(N);
+            let mut exact = false;
+            for i in 0..N {
+                let (s, d) = pick_d();
+                sel[i] = s;
+                dv.push(d);
+                if s == 0 {
+                    exact = true;
+                }
+            }
+            let w = KNNWeightFunction::Distance.calc_weights(dv);
+            assert!(w.len() == N, "calc_weights (distance): one weight per neighbour");
+            for i in 0..N {
+                if exact {
+                    assert!(w[i] == if sel[i] == 0 { 1.0 } else { 0.0 }, "calc_weights (distance): with an exact match among the neighbours the exact matches weigh 1 and every other neighbour 0");
+                } else {
+                    let expect = match sel[i] {
+                        1 => 1.0,
+                        2 => 0.5,
+                        _ => 1.0 / 3.0,
+                    };
+                    assert!(w[i] == expect, "calc_weights (distance): without an exact match the weight is 1 / distance");
+                }
+            }
+            for i in 0..N {
+                for j in 0..N {
+                    if sel[i] < sel[j] {
+                        assert!(w[i] >= w[j], "calc_weights (distance): a closer neighbour never weighs less than a farther one");
+                    }
+                }
+            }
+            kani::cover!(exact && w[N - 1] == 1.0);
+            kani::cover!(!exact && w[N - 1] == 0.5);
+        }
+    };
+}
+h_weights_distance!(c04_weights_distance_1, 1, 8);
+h_weights_distance!(c04_weights_distance_2, 2, 8);
+h_weights_distance!(c04_weights_distance_3, 3, 8);
